@@ -551,25 +551,41 @@ class AsIs:
         l, r = self.toint(l), self.toint(r)
         if 'swap:' + op in self.active:
             try:
-                same = apply_bin(op, l, r) == apply_bin(op, r, l)
-            except (Reject, Fault):
+                same = self.apply(op, l, r, set()) == self.apply(op, r, l, set())
+            except Out:
                 same = False
             if not same:
                 fired.add('swap:' + op)
             l, r = r, l
-        try:
-            return apply_bin(op, l, r)
-        except Fault as f:
-            if f.kind in ('div-by-zero:/', 'div-by-zero:%'):
+        return self.apply(op, l, r, fired)
+
+    def apply(self, op, l, r, fired):
+        """What the compiled C++ does with two ints (C++11, UBSan: undefined operations end the process; without UBSan
+        anything may come out, hence ANYVALUE next to CRASH)."""
+        ub = Out({'CRASH', 'ANYVALUE'})
+        if op in ('/', '%'):
+            if r == 0:
                 v = 'div0:' + op
                 if v in self.active:
                     fired.add(v)
                     raise Out({'CRASH'})
                 raise Out({'ERR'})
-            raise
+            if l == INT_MIN and r == -1:
+                raise ub
+            return apply_bin(op, l, r)
+        if op == '<<':
+            if r < 0 or r >= 32 or l < 0 or (l << r) >= 2 ** 32:
+                raise ub
+            v = l << r
+            return v - 2 ** 32 if v > INT_MAX else v
+        if op == '>>':
+            if r < 0 or r >= 32:
+                raise ub
+            return l >> r
+        try:
+            return apply_bin(op, l, r)
         except Reject:
-            # undefined in C: under UBSan the process dies, otherwise anything may come out
-            raise Out({'CRASH', 'ANYVALUE'})
+            raise ub
 
 
 # ------------------------------------------------------------------------------------------------ generator
@@ -611,10 +627,12 @@ class Gen:
                     return ('a', n, it), vals[iv]
             i = rng.randrange(len(vals))
             return ('a', n, ('c', i)), vals[i]
-        if env.structs:
-            b = rng.choice(sorted(env.structs))
+        st = [b for b in sorted(env.structs) if env.structs[b]]
+        if st:
+            b = rng.choice(st)
             p = rng.choice(sorted(env.structs[b]))
-            return ('f', b + '.' + p), env.structs[b][p]
+            if p not in ('type', 'vis'):     # names the datamodel uses for its own bookkeeping: judged by read-back only
+                return ('f', b + '.' + p), env.structs[b][p]
         c = self.const()
         return ('c', c), c
 
